@@ -4,7 +4,7 @@
 From Coq Require Import Reals List Lra.
 From ADV Require Import Base.Num C16.Model C16.ModelHmm C16.Spec C16.ProofsMax C16.ProofsEM C16.ProofsModel
   C16.ProofsBW C16.ProofsBW2 C16.ProofsBW3 C16.ProofsClamp C16.ModelVec C16.ProofsVec C16.ProofsDet
-  C16.ModelNest C16.ProofsNest C16.ModelObj C16.ProofsObj.
+  C16.ModelNest C16.ProofsNest C16.ModelObj C16.ProofsObj C16.ProofsBatch C16.ModelNum C16.ProofsNum.
 Import ListNotations.
 Open Scope R_scope.
 
@@ -662,3 +662,63 @@ Proof.
   - intros th. unfold ell. rewrite S_INR. lra.
   - eexists _, _, _. split; [reflexivity|]. split; reflexivity.
 Qed.
+
+(* (round 7) BATCH interface with unweighted (gamma == nil) and weighted observations MIXED in one batch: the object
+   model's Initialize; NewObservation ...; GetEstimate of the log-scale families (count of unweighted observations
+   COMBINED with the LogAdd-accumulated log-weight mass by updateEstimate) returns, over exact reals, the weighted closed
+   form of the observations with effective weight 1 for a nil gamma and exp(gamma) (0 for -Inf) otherwise ... *)
+Theorem geometric_mixed_batch_returns_the_weighted_closed_form : forall obs,
+  nonneg_obs obs -> 0 < sumw (eff_data obs) ->
+  pure_batch (geometric_family NumR exp ln LOG1P_R) obs = Some (mle_geometric (eff_data obs)).
+Proof. exact geometric_mixed_batch. Qed.
+
+Theorem poisson_mixed_batch_returns_the_weighted_closed_form : forall obs,
+  nonneg_obs obs -> 0 < sumw (eff_data obs) -> 0 < sumwx (eff_data obs) ->
+  pure_batch (poisson_family NumR exp ln LOG1P_R) obs = Some (mle_poisson (eff_data obs)).
+Proof. exact poisson_mixed_batch. Qed.
+
+Theorem exponential_mixed_batch_returns_the_clamped_weighted_closed_form : forall lmax obs,
+  nonneg_obs obs -> 0 < sumw (eff_data obs) -> 0 < sumwx (eff_data obs) -> 0 < lmax ->
+  pure_batch (exponential_family NumR exp ln LOG1P_R lmax) obs = Some (mle_exp_rate lmax (eff_data obs)).
+Proof. exact exponential_mixed_batch. Qed.
+
+(* ... hence (with (1)) a maximiser of the weighted log-likelihood under the effective weights, after ANY history of the
+   object (batch_estimate_after_any_history_is_the_pure_batch_estimate) *)
+Theorem geometric_mixed_batch_estimate_is_maximiser : forall obs,
+  nonneg_obs obs -> 0 < sumw (eff_data obs) ->
+  exists v, pure_batch (geometric_family NumR exp ln LOG1P_R) obs = Some v /\ forall p, 0 < p -> p <= 1 -> (0 < sumwx (eff_data obs) -> p < 1) ->
+    ll_geometric (eff_data obs) p <= ll_geometric (eff_data obs) v.
+Proof. exact geometric_mixed_batch_max. Qed.
+
+(* non-vacuity: x = 3 unweighted, x = 1 with log-weight ln 2, x = 0 unweighted: W = 4, sum w x = 5 (p = 4/9) *)
+Example mixed_batch_hypotheses_satisfiable :
+  let obs := [(3, None); (1, Some (Some (ln 2))); (0, None)] in
+  nonneg_obs obs /\ sumw (eff_data obs) = 4 /\ sumwx (eff_data obs) = 5.
+Proof. exact mixed_batch_example. Qed.
+
+(* (round 7) scalarEstimator/numeric.go: the value NumericEstimator's objective hands to its Hook is the weighted
+   log-likelihood sum_k exp(gamma_k) log f(x_k) (weight 1 without gamma, 0 = SKIPPED for log-weight -Inf) whenever every
+   observation outside the support (log-density -Inf) carries log-weight -Inf; the objective is its negative over n ... *)
+Theorem numeric_objective_hook_value_is_the_weighted_loglikelihood : forall lps gs, supported lps gs ->
+  num_hook NumR exp lps gs = Some (sumwx (num_data lps gs)).
+Proof. exact num_hook_is_weighted_loglik. Qed.
+
+Theorem numeric_objective_is_the_scaled_negative_loglikelihood : forall n lps gs, supported lps gs ->
+  num_objective NumR exp n lps gs = Some (- sumwx (num_data lps gs) / IZR n).
+Proof. exact num_objective_is_scaled_negative_loglik. Qed.
+
+(* ... so the optimizers' order on parameter values is the reversed order of the weighted log-likelihood.
+   _partial: NO theorem about the optimizers' iteration (newton / bfgs / rprop) or about stationarity of the returned point *)
+Theorem numeric_objective_orders_parameters_by_loglikelihood_partial : forall n lps1 lps2 gs o1 o2, (0 < n)%Z ->
+  supported lps1 gs -> supported lps2 gs ->
+  num_objective NumR exp n lps1 gs = Some o1 -> num_objective NumR exp n lps2 gs = Some o2 ->
+  (o1 <= o2 <-> sumwx (num_data lps2 gs) <= sumwx (num_data lps1 gs)).
+Proof. exact num_objective_orders_parameters_by_loglik. Qed.
+
+(* non-vacuity: a zero-weight observation outside the support is skipped (value -3); with positive weight the value is -Inf *)
+Example numeric_objective_hypotheses_satisfiable :
+  let lps := [Some (-2); None; Some (-1)] in
+  let gs := Some [Some 0; None; Some 0] in
+  supported lps gs /\ num_hook NumR exp lps gs = Some (sumwx (num_data lps gs)) /\ sumwx (num_data lps gs) = -3 /\
+  num_hook NumR exp lps (Some [Some 0; Some 0; Some 0]) = None.
+Proof. exact num_hook_example. Qed.
